@@ -425,6 +425,7 @@ def check(run):
         hint = f.get("cfg", "0,0,0,0,0,0,0,0,0,0,0,0,0,0").split(",")[-1]
         creq.append("C %s H=%s" % (c.split()[1], hint))
     cres = vlib.run_lines(model, creq, timeout=600)
+    cres0 = vlib.run_lines(model, ["C %s H=0" % c.split()[1] for c, _ in cases], timeout=600)
     stats = {"ok": 0, "panic": 0, "call_failed": 0, "stall": 0, "unfinished": 0, "rust_decoder_bad": 0, "google_decoder_bad": 0, "google_na": 0,
              "D_bad": 0, "ringbuffer_bad": 0, "config_disagree": 0, "D_checked": 0}
     reached = {}
@@ -512,7 +513,7 @@ def check(run):
         q = int(ic[0])
         if same and q >= 2 and tr_total > tr_fast and int(f["n"]) > 0:
             # the hasher is chosen with the size hint known at its first use (the reported one or none)
-            alt = vlib.run_lines(model, ["C %s H=0" % c.split()[1]])[0] if mc.get("hasher") != ic[12] else cm
+            alt = cres0[k] if mc.get("hasher") != ic[12] else cm
             if mc.get("hasher") != ic[12] and dict(t.split("=", 1) for t in alt.split()).get("hasher") != ic[12]:
                 same = False
         if not same or mc.get("hq") != "1":
